@@ -142,10 +142,16 @@ TCall ==
 
 \* Closing every handle and loading the library again: nothing observable changes, the loader
 \* reports the schema the library was created with (C10).
+\* A "crash" record (library on disk): the call of this record was attempted in another process, which died right
+\* before stepping its k-th statement (no destructor, no ROLLBACK); the library was then loaded again.  While the
+\* stored tables are unchanged (dsame) nothing observable may have changed either - same rule as a reopen.  (Once the
+\* tables differ the dead process had committed: the driver logs that attempt as the call itself, and TCall demands
+\* the complete effect of the call - a partial update after a crash is a trace no action explains.)
 TReopen ==
     /\ l <= Len(Log)
     /\ LET r == Log[l] IN
-       /\ r.e = "reopen"
+       /\ r.e \in {"reopen", "crash"}
+       /\ (r.e = "crash" => r.dsame /\ ~Has(r, "childdied"))
        /\ r.out = "ok" /\ Has(r, "obs")
        /\ Reopen
        /\ r.exists = TRUE
